@@ -19,6 +19,7 @@
 import GoSnaps.Generated.FuncsIO
 import GoSnaps.Props.C14
 import GoSnaps.Props.C14Json
+import GoSnaps.Props.Tie.Flows
 
 namespace GoSnaps.Tie.Pipeline
 open GoSnaps GoSnaps.GoIO
@@ -253,5 +254,44 @@ theorem default_indent_ws : Json.IndentWs (toModelOpts (optsOf none)) := by
 example : Generated.FuncsIO.takeJSONSnapshot (fun _ => none) modelPretty {} [123, 34, 98, 34, 58, 49, 44, 34, 97, 34, 58, 50, 125] =
     some [123, 10, 32, 34, 97, 34, 58, 32, 50, 44, 10, 32, 34, 98, 34, 58, 32, 49, 10, 125] := by
   decide +kernel
+
+/-! ## 6. the flows with the source's own pipeline functions
+
+The transliterated flows (Tie/Flows.lean) take `validate` and `takeJSON` as parameters and hand their
+`input` to `validate` only; `dec` reads that opaque token as the dynamically typed value it stands for. -/
+
+open GoSnaps.Tie in
+/-- whatever validation is plugged in, the `pre` of a document flow is decided by its result alone -/
+theorem docPre_of_validation (validate : Text → Text × Err) (run : Matcher → Text → Text × List MErr)
+    (render : Text → Text) (input : Text) (ms : List Matcher) :
+    docPre validate run render input ms =
+      match toExcept (validate input) with
+      | .error e => .error e
+      | .ok j => docPre (fun _ => (j, Err.nil)) run render input ms := by
+  unfold docPre toExcept
+  cases h : (validate input).2.notNil <;> simp [h, Err.isNil]
+  intro h'; exact absurd h' (by decide)
+
+open GoSnaps.Tie in
+/-- **MatchJSON / MatchStandaloneJSON with the source's `validateJSON`**: what reaches the snapshot stage is
+decided by the model's `C14.validateJSON` on the dynamic type of the input — a string and the same bytes as
+`[]byte` are indistinguishable from there on, an invalid one is rejected with `invalid json` before any
+matcher runs, any other value goes through `json.Marshal` -/
+theorem docPre_source_json (gv : Text → Bool) (jm : Dyn → Text × Err) (dec : Text → Dyn)
+    (run : Matcher → Text → Text × List MErr) (render : Text → Text) (input : Text) (ms : List Matcher) :
+    docPre (fun i => Generated.FuncsIO.validateJSON gv jm (dec i)) run render input ms =
+      match C14.validateJSON gv (fun id => toExcept (jm (.other id))) (toJInput (dec input)) with
+      | .error e => .error e
+      | .ok j => docPre (fun _ => (j, Err.nil)) run render input ms := by
+  rw [docPre_of_validation, validateJSON_tied]
+
+open GoSnaps.Tie in
+theorem docPre_source_json_forms (gv : Text → Bool) (jm : Dyn → Text × Err) (dec : Text → Dyn)
+    (run : Matcher → Text → Text × List MErr) (render : Text → Text) (i1 i2 : Text) (s : Text) (ms : List Matcher)
+    (h1 : dec i1 = .str s) (h2 : dec i2 = .bytes s) :
+    docPre (fun i => Generated.FuncsIO.validateJSON gv jm (dec i)) run render i1 ms =
+    docPre (fun i => Generated.FuncsIO.validateJSON gv jm (dec i)) run render i2 ms := by
+  unfold docPre
+  simp only [h1, h2, (validateJSON_forms gv jm s).1]
 
 end GoSnaps.Tie.Pipeline
